@@ -10,7 +10,7 @@
    union-only triples, known names = listed names); every state reached by a
    history of writes is (C13_reachable).  [names d g]: g is the default graph
    or listed by the store. *)
-From RV Require Import Dataset.Model Dataset.Proofs Purity.Model Purity.Proofs.
+From RV Require Import Dataset.Model Dataset.Proofs Purity.Model Purity.Proofs Purity.Programs.
 Local Open Scope N_scope.
 
 Theorem C13_reachable : forall b ops,
@@ -69,10 +69,77 @@ Theorem C13_same_reading : forall a b,
 Proof. exact psnap_same_reading. Qed.
 Print Assumptions C13_same_reading.
 
-Theorem C13_run_reading : forall prev s f l,
-  pure_run prev ((s, f) :: l) = true <-> psnap_same prev s = true /\ f = true /\ pure_run s l = true.
+Theorem C13_run_reading : forall prev e l,
+  pure_run prev (e :: l) = true <->
+  psnap_same prev (e_snap e) = true /\ e_same e = true
+  /\ (forall c, In c (e_calls e) -> In c (read_meths ++ benign_meths)) /\ pure_run (e_snap e) l = true.
 Proof. exact pure_run_reading. Qed.
 Print Assumptions C13_run_reading.
+
+(* ---- read programs: the purity of a serialiser, a query, a comparison is a
+   consequence of ONE checked fact - that it talks to the store through read
+   methods only (harness/c13.py records every store method a read calls; the
+   checker rejects any other) ---- *)
+
+(* ANY program over the store's read interface - whatever it computes in
+   between - leaves quads, union-only triples, front-end kind and the set of
+   graph names (default graph counted as present) as they were *)
+Theorem C13_program_pure : forall A (pr : prog A) s,
+  let s' := fst (run pr s) in
+  quads (st (r_ds s')) = quads (st (r_ds s)) /\ orphans (st (r_ds s')) = orphans (st (r_ds s))
+  /\ (forall g, (g = 0 \/ In g (known (st (r_ds s')))) <-> (g = 0 \/ In g (known (st (r_ds s))))).
+Proof. intros A pr s. destruct (run_pure A pr s) as (H1 & H2 & _ & _ & H5 & _). auto. Qed.
+Print Assumptions C13_program_pure.
+
+(* a program that only asks changes nothing at all; one that also registers the
+   default graph changes nothing once it is registered, and before that adds
+   exactly that registration *)
+Theorem C13_program_state : forall A (pr : prog A),
+  (quiet pr -> forall s, fst (run pr s) = s)
+  /\ (bind_free pr -> forall s, settled s -> fst (run pr s) = s)
+  /\ (bind_free pr -> forall s, fst (run pr s) = s \/ (fst (run pr s) = touch0 s /\ ~ settled s)).
+Proof.
+  intros A pr. split; [apply run_quiet_id|split]; [apply run_settled_id|apply run_bind_free_known].
+Qed.
+Print Assumptions C13_program_state.
+
+(* repeatability with other reads in between *)
+Theorem C13_program_repeatable : forall A (pr : prog A) between s,
+  settled s -> bind_free pr -> Forall sp_bind_free between ->
+  snd (run pr (fold_left sp_run between (fst (run pr s)))) = snd (run pr s).
+Proof. exact run_repeatable. Qed.
+Print Assumptions C13_program_repeatable.
+
+Theorem C13_program_repeatable_quiet : forall A (pr : prog A) between s,
+  quiet pr -> Forall sp_quiet between ->
+  snd (run pr (fold_left sp_run between (fst (run pr s)))) = snd (run pr s).
+Proof. exact run_repeatable_quiet. Qed.
+Print Assumptions C13_program_repeatable_quiet.
+
+(* prefix bindings (the one other benign write) do not reach the data: a program
+   that never asks for the prefix table answers the same whatever the table is *)
+Theorem C13_program_ns_blind : forall A (pr : prog A), ns_blind pr -> forall s s',
+  r_ds s = r_ds s' -> snd (run pr s) = snd (run pr s') /\ r_ds (fst (run pr s)) = r_ds (fst (run pr s')).
+Proof. exact run_ns_blind. Qed.
+Print Assumptions C13_program_ns_blind.
+
+(* the front end's own reads are such programs, and every method code the
+   checker accepts is an operation of the language; every write code is rejected *)
+Theorem C13_front_end_reads_are_programs : forall d ns p,
+  cg_quads d p CTriple = (let (s', l) := run (prog_quads p) {| r_ds := d; r_ns := ns |} in (r_ds s', l))
+  /\ ds_graphs d = (let (s', l) := run (prog_graphs (is_ds d)) {| r_ds := d; r_ns := ns |} in (r_ds s', l))
+  /\ cg_len d = snd (run prog_len {| r_ds := d; r_ns := ns |})
+  /\ quiet (prog_quads p) /\ bind_free (prog_graphs (is_ds d)).
+Proof.
+  intros d ns p. split; [apply quads_is_program|]. split; [apply graphs_is_program|]. split; [apply len_is_program|].
+  split; [apply prog_quads_quiet|apply prog_graphs_bind_free].
+Qed.
+Print Assumptions C13_front_end_reads_are_programs.
+
+Theorem C13_recorded_calls : (forall c, call_ok c = true -> meth_kind c <> None)
+  /\ forallb (fun c => negb (call_ok c)) [30; 31; 32; 33; 34; 35; 36; 37; 38; 39; 40; 41; 42; 43; 44] = true.
+Proof. split; [exact call_ok_is_op|exact write_codes_rejected]. Qed.
+Print Assumptions C13_recorded_calls.
 
 (* non-vacuity: a dataset with an IRI-named, a blank-node-named and an empty
    known graph; restricted reads through an identifier and through a
